@@ -69,6 +69,24 @@ pub fn plan(prop: &str) -> Option<Plan> {
             ],
             watchdog_s: 20,
         },
+        "C05" => Plan {
+            prop: "C05",
+            level: "exploration",
+            quick_runs: 600_000,
+            thorough_runs: 30_000_000,
+            chunk: 5_000,
+            builds: &[("checked", 1.0)],
+            rule: "one case = one seeded run of the wire simulation in a version-skew configuration: a chain role (SEQUENCE / SET / DEFAULT-only SEQUENCE / CHOICE / ENUMERATED chains of 4-9 versions, each as the type itself, inside SEQUENCE { m, tail }, inside SEQUENCE OF and as OPTIONAL component followed by a string) and two versions lo < hi are drawn; the sender writes 1-6 messages plus a sentinel into ONE writer, the receiver decodes them with the other version. Values: v_low = GenReader(valid mode) at lo; v_high = TreeReader(tree(v_low)) at hi with the new additions / alternatives / values drawn (payloads up to 300 octets so open-type lengths cross 127/128). Oracle old->new: Ok, equals TreeReader(tree(v_low), all new absent), consumed bits == message extent, sentinel decodes, 0 bits remain. new->old: Ok and equals v_low with exact extent, except that a selected unknown alternative/value may give Err (then nothing more is asserted) but never Ok. Non-trivial = at least one message decoded under the other version (or an accepted Err for an unknown selection); distinct = distinct event-log hash.",
+            real: &["UperWriter", "UperReader<Bits>", "generated version-chain types (sim/zoo/chain_*.asn1, generated by tools/gen_chains.py) compiled by asn1rs itself"],
+            stub: &["transport (in-memory wire)", "peer configuration: both versions live in one process as distinct Rust types"],
+            assumptions: &[
+                "schema evolution = appending extension additions / alternatives / values only (what the property states); AUTOMATIC TAGS",
+                "sender-side refusals (ExtensionFieldsInconsistent) are skipped and counted",
+                "TreeReader aligns the versions positionally (appended additions keep the first n positions; in a SET appended additions get the highest context tags and sort last)",
+                "scenarios inside the domain predicate of the open known finding D8 are re-drawn",
+            ],
+            watchdog_s: 20,
+        },
         "C11" => Plan {
             prop: "C11",
             level: "exploration",
@@ -104,6 +122,40 @@ pub fn plan(prop: &str) -> Option<Plan> {
             ],
             watchdog_s: 20,
         },
+        "C14" => Plan {
+            prop: "C14",
+            level: "fault_enumeration",
+            quick_runs: 250_000,
+            thorough_runs: 8_000_000,
+            chunk: 2_500,
+            builds: &[("checked", 1.0)],
+            rule: "one case = one seeded run of the front-end environment simulation: 1-3 module texts drawn from the corpus (the zoo modules, hand-written modules under /verif/corpus covering imports with OIDs, value references, WITH COMPONENTS, nested comments, tags of every class, recursive types, and every inline module of /repo/tests/*.rs) receive 1-4 storage faults of swarm-selected kinds (T-TRUNC torn file, T-DELCH/T-INSCH one char, T-DELTOK/T-DUPTOK/T-SWAPTOK/T-INSTOK/T-REPTOK token granularity incl. replacing a token by another one of the same module, T-NUM number replaced by empty/huge/negative/non-numeric) or a token soup is drawn (T-SOUP); the result goes through Tokenizer.parse -> Model::try_from -> try_resolve / MultiModuleResolver::try_resolve_all -> to_rust / to_rust_with_scope -> to_protobuf, each stage only if the previous returned Ok. Oracle: no panic other than the sanctioned unclosed-comment one; no abort, stack overflow or hang (child process exit status + watchdog). 1 in 80 quick runs (1 in 20 thorough) enumerates every fault position of one corpus module (every truncation point, every single token deleted, every adjacent pair swapped). Non-trivial = the tokenizer produced >= 10 tokens; distinct = distinct event-log hash (stage reach, token count).",
+            real: &["Tokenizer", "Model::try_from", "Model::try_resolve", "MultiModuleResolver::{push,try_resolve_all}", "Model::to_rust / to_rust_with_scope", "ToProtobufModel::to_protobuf"],
+            stub: &["file system (an in-memory set of module texts; Converter::load_file's four lines are re-stated in the harness, Converter itself is not executed)"],
+            assumptions: &[
+                "whether an edited module is accepted or rejected, and error contents, are not checked",
+                "code generation (RustCodeGenerator::to_string, the attribute macro) is outside this property's statement and not executed",
+            ],
+            watchdog_s: 20,
+        },
+        "C17" => Plan {
+            prop: "C17",
+            level: "exploration",
+            quick_runs: 800_000,
+            thorough_runs: 30_000_000,
+            chunk: 5_000,
+            builds: &[("checked", 1.0)],
+            rule: "one case = one seeded run over protobuf: (70%) a producer writes the same zoo value (valid mode) through ProtobufWriter::default() and through ProtobufWriter::from(&mut [u8]) whose capacity is drawn (exact fit, generous, one byte short, random smaller, zero = IO-FULL), a consumer reads the bytes with ProtobufReader; oracle: whenever a back end returns Ok its as_bytes / len_written / into_bytes_vec equal the other back end's, and the decoded value is proto-equal to the original (value trees equal after mapping a present zero-ish OPTIONAL to absent); (30%) a stream of ProtoWrite primitives (varint, bool, sint32/64, uint32/64, tag, sfixed32, enum variant, bytes, string) goes through a FaultyWrite and comes back through a FaultyRead with short transfers and EINTR: every value equal, consuming exactly the bytes produced; EOF@k / error@k / zero-length writes give diagnostics only. Non-trivial = a value or primitive stream was read back; distinct = distinct event-log hash.",
+            real: &["ProtobufWriter (Vec and fixed-slice back ends)", "ProtobufReader", "ProtoWrite/ProtoRead blanket impls over io::Write/io::Read", "generated zoo types"],
+            stub: &["io::Read / io::Write objects (FaultyRead/FaultyWrite)", "fixed destination capacity"],
+            assumptions: &[
+                "values are generated in valid mode (the protobuf writer narrows by `as`, out-of-constraint values are outside what the property can mean)",
+                "proto-equality = equality of value trees modulo 'absent OPTIONAL == present zero-ish value' (0, false, empty string/bytes/list, first ENUMERATED value, structures of zero-ish fields)",
+                "bytes left in a slice after a failed write and writer reuse after failure are not checked",
+                "values inside the domain predicate of an open known finding are skipped (counted as known.<id>.redirected_draws)",
+            ],
+            watchdog_s: 6,
+        },
         "C19" => Plan {
             prop: "C19",
             level: "exploration",
@@ -125,10 +177,13 @@ pub fn plan(prop: &str) -> Option<Plan> {
 }
 
 /// ids of domain predicates the generators know about (DESIGN 6)
+/// abnormal worker exits triaged so far (each one can cost a watchdog period): capped
+static ABNORMAL_TRIAGED: std::sync::atomic::AtomicU64 = std::sync::atomic::AtomicU64::new(0);
+const MAX_ABNORMAL_TRIAGED: u64 = 6;
 static WANT_OUTCOMES: std::sync::atomic::AtomicBool = std::sync::atomic::AtomicBool::new(false);
 static HASH_SAMPLE: std::sync::atomic::AtomicU64 = std::sync::atomic::AtomicU64::new(1);
 
-pub const ALL_DOMAINS: &[&str] = &["D5", "D6", "D7", "D8", "D11", "D12", "D13", "D14"];
+pub const ALL_DOMAINS: &[&str] = &["D5", "D6", "D7", "D8", "D11", "D12", "D13", "D14", "D15", "D17"];
 
 impl Finding {
     fn matches(&self, sig: &str) -> bool {
@@ -145,6 +200,10 @@ struct Finding {
     status: String,
     signature_prefix: String,
     signature_contains: String,
+    /// a fragment some event line of the pinned replay must contain, else the pin is stale
+    must_contain_event: String,
+    /// the finding is only recognised in its pinned replay, never attributed during exploration
+    replay_only: bool,
     replay: Option<String>,
     what: String,
     commit: Option<String>,
@@ -166,6 +225,8 @@ fn load_findings(root: &Path) -> Vec<Finding> {
             status: s("status").unwrap_or_else(|| "open".into()),
             signature_prefix: s("signature_prefix").unwrap_or_default(),
             signature_contains: s("signature_contains").unwrap_or_default(),
+            must_contain_event: s("must_contain_event").unwrap_or_default(),
+            replay_only: matches!(e.get("replay_only"), Some(J::Bool(true))),
             replay: s("replay"),
             what: s("what").unwrap_or_default(),
             commit: s("commit"),
@@ -376,6 +437,13 @@ fn run_jobs(jobs: Vec<Job>, bins: &Bins, prop: &str, tier: Tier, seed: u64, lift
                 let _ = std::fs::remove_file(&hash_path);
             }
             ChildEnd::Abnormal(class, run, tail) => {
+                if ABNORMAL_TRIAGED.fetch_add(1, std::sync::atomic::Ordering::Relaxed) >= MAX_ABNORMAL_TRIAGED {
+                    // enough abnormal exits located exactly; the rest is only counted (not explored further)
+                    m.counters.inc(&format!("abnormal_not_triaged.{class}"));
+                    m.counters.add("runs_not_executed_because_chunk_ended_abnormally", job.to - job.from);
+                    m.violations.push(FoundViolation { build: job.build.clone(), run: run.unwrap_or(job.from), signature: format!("{prop}/process-{class}"), detail: format!("worker process ended abnormally ({class}) in chunk {}..{}; stderr tail:\n{tail}", job.from, job.to), lanes: None });
+                    continue;
+                }
                 // triage: find the run (determinism makes this exact), then run the rest of the chunk
                 triage(&mut m, &mut distinct, &mut shapes, &job, class, run, tail, bins, prop, tier, seed, lifted, tmp, watchdog_s);
             }
@@ -452,7 +520,7 @@ fn triage(m: &mut Merged, distinct: &mut HashSet<u64>, shapes: &mut HashSet<u64>
     let hi = job.to;
     let mut pending: Option<(String, Option<u64>, String)> = Some((class, run, tail));
     let mut guard_iters = 0;
-    while lo < hi && guard_iters < 64 {
+    while lo < hi && guard_iters < 8 {
         guard_iters += 1;
         let (class, run, tail) = match pending.take() {
             Some(p) => p,
@@ -859,6 +927,7 @@ fn check(args: &[String], root: &Path, bins: &Bins) -> i32 {
     };
     let mut known_reproduced: Vec<J> = Vec::new();
     let mut known_lines = 0;
+    let mut stale_pins = 0;
     for f in &mine {
         if f.status != "open" {
             continue;
@@ -867,9 +936,14 @@ fn check(args: &[String], root: &Path, bins: &Bins) -> i32 {
         let path = root.join(rp);
         let text = std::fs::read_to_string(&path).unwrap_or_default();
         let build = J::parse(&text).ok().and_then(|j| j.get("profile").and_then(J::as_str).map(str::to_string)).unwrap_or_else(|| "checked".into());
-        let o = if prop == "C19" { replay_c19(bins, &path, &tmp) } else { replay_file_in_child(bins.get(&build), &path, plan.watchdog_s) };
+        // a pinned hang only needs to be recognised as one: short watchdog
+        let o = if prop == "C19" { replay_c19(bins, &path, &tmp) } else { replay_file_in_child(bins.get(&build), &path, plan.watchdog_s.min(4)) };
         let sig = replay_signature(&prop, &o);
         let still = matches!(&sig, Some(s) if f.matches(s));
+        if !f.must_contain_event.is_empty() && o.abnormal.is_none() && !o.events.iter().any(|e| e.contains(&f.must_contain_event)) {
+            eprintln!("HARNESS-ERROR: pinned replay {} of finding {} is stale: no event contains {:?} (the zoo or the generators changed; re-pin it)", rp, f.id, f.must_contain_event);
+            stale_pins += 1;
+        }
         known_reproduced.push(J::obj().with("id", J::str(f.id.clone())).with("replay", J::str(rp.clone())).with("still_fails", J::Bool(still)).with("signature", sig.clone().map(J::str).unwrap_or(J::Null)));
         if still {
             println!("KNOWN-FINDING: property={prop} {} [{}] (pinned replay {})", f.what, f.id, rp);
@@ -941,7 +1015,7 @@ fn check(args: &[String], root: &Path, bins: &Bins) -> i32 {
             m.harness_errors.push(format!("{sig}: {} (run {} build {})", v.detail, v.run, v.build));
             continue;
         }
-        if let Some(f) = mine.iter().find(|f| f.status == "open" && f.matches(sig)) {
+        if let Some(f) = mine.iter().find(|f| f.status == "open" && !f.replay_only && f.matches(sig)) {
             *known_hits.entry(f.id.clone()).or_insert(0) += m.counters.get(&format!("violation.{sig}")).max(1);
             continue;
         }
@@ -1002,6 +1076,9 @@ fn check(args: &[String], root: &Path, bins: &Bins) -> i32 {
         for v in new_violations.iter().skip(8) {
             println!("  further: {} (build {}, run {}): {}", v.signature, v.build, v.run, first_line(&v.detail));
         }
+    }
+    if stale_pins > 0 && exit == 0 {
+        exit = 2;
     }
     if !m.harness_errors.is_empty() {
         for e in &m.harness_errors {
@@ -1109,6 +1186,9 @@ fn expected_probes(prop: &str) -> &'static [&'static str] {
     match prop {
         "C01" => &["back_to_back_stream>=2", "fragmented_length_seen"],
         "C04" => &["read_failed_then_accessors_called", "truncated_delivery", "EINTR_retried"],
+        "C05" => &["unknown_addition_present", "unknown_alternative_or_value_selected", "message_longer_than_127_octets"],
+        "C14" => &["multi_module_scope", "fault_point_enumeration_modules"],
+        "C17" => &["exact_fit_slice", "EINTR_retried", "roundtrip_equal_only_up_to_default_equivalence"],
         "C19" => &["dde_error_carries_description", "fault_free_delivery_compared"],
         "C20" => &["EINTR_retried_on_write", "EINTR_retried_on_read", "short_reads_inside_item", "items_survived_writer_crash", "torn_item_seen", "boolean_any_nonzero_octet_checked", "fault_point_enumeration_streams"],
         "C11" => &["bulk_copy_aligned_branch", "bulk_copy_unaligned_branch", "exact_fit_destination", "read_bit_at_exact_end"],
